@@ -257,7 +257,9 @@ func c10Rel(x *mc.Exec) {
 	d := TypeD{Name: "t", Rels: []RelD{{"one", true, "t", ""}, {"many", false, "t", ""}}}
 	ids := []string{"", "a", "b", "ab"}
 	// nil: a to-many field never assigned (struct) / a nil list given as the filter value
-	lists := [][]string{nil, {}, {"a"}, {"b"}, {"a", "b"}, {"b", "a"}, {"a", "b", "c"}, {"c", "b", "a"}, {"a", "c"}, {"ab"}}
+	lists := [][]string{nil, {}, {"a"}, {"b"}, {"a", "b"}, {"b", "a"}, {"a", "b", "c"}, {"c", "b", "a"}, {"a", "c"}, {"ab"},
+		// the empty id is an id like any other
+		{"", "a"}, {"b", ""}, {""}}
 	asSet := func(l []string) map[string]bool {
 		m := map[string]bool{}
 		for _, s := range l {
